@@ -303,6 +303,7 @@ func (r *Raft) onInstallSnapRequest(req *installSnapReq, c *conn) (rpcResult, er
 	if doneErr != nil {
 		return unexpectedErr, opError(doneErr, "snapshotSink.done")
 	}
+	verifPoint(r, "isnap.stored")
 
 	discardLog := true
 	if r.storage.log.Contains(meta.index) {
@@ -336,6 +337,7 @@ func (r *Raft) onInstallSnapRequest(req *installSnapReq, c *conn) (rpcResult, er
 		r.changeConfig(meta.config)
 		r.commitConfig()
 	}
+	verifPoint(r, "isnap.done")
 
 	return success, nil
 }
